@@ -182,7 +182,9 @@ def run_case(case):
     # history of the measured dump: fresh / written over an earlier dump of other data / a re-dump of a loaded dump
     history = 'fresh'
     if fmt in ('csv', 'json'):
-        history = rng.choice(['fresh', 'fresh', 'same_target', 'redump', 'redump_twice'])
+        history = rng.choice(['fresh', 'fresh', 'same_target', 'redump', 'redump_twice', 'same_step_object'])
+    if history == 'same_step_object' and kind == 'zip':
+        history = 'same_target'     # (a dump_to_zip object holds its archive from construction on: a second run is refused loudly)
     cfg['history'] = history
     if want_drop and history == 'fresh':
         # the dumper's own validator drops a row that does not conform: the numbers describe what was WRITTEN
@@ -225,6 +227,8 @@ def run_case(case):
         cov['config']['directory_where_a_data_file_goes'] = 1
         os.makedirs(os.path.join('o1', res[0]['name'] + '.' + fmt, 'part-0'))
 
+    reused_step = {}
+
     def dump(out, sources=None):
         steps = sources or [lab.source(r['name'], r['fields'], r['rows']) for r in res]
         if declared_enc:
@@ -235,8 +239,13 @@ def run_case(case):
             for r_, ext_ in zip(res, ['.json', '.csv', '.tsv', '.txt', '.dat']):
                 steps.append(d.update_resource(r_['name'], path='data/report' + ext_))
         steps.append(d.update_package(name='pkg'))
-        steps.append(d.dump_to_path(out, **copy.deepcopy(opts)) if kind == 'path'
-                     else d.dump_to_zip(out, **copy.deepcopy(opts)))
+        if out in reused_step:
+            steps.append(reused_step[out])          # the step OBJECT of an earlier run into the same target
+        else:
+            steps.append(d.dump_to_path(out, **copy.deepcopy(opts)) if kind == 'path'
+                         else d.dump_to_zip(out, **copy.deepcopy(opts)))
+            if history == 'same_step_object':
+                reused_step[out] = steps[-1]
         if early_stop:
             import itertools
 
@@ -270,7 +279,7 @@ def run_case(case):
     def add(kind_, msg, mech, **kw):
         viol.append(dict({'kind': kind_, 'mech': mech, 'msg': '%r: %s' % (cfg, msg), 'config': cfg}, **kw))
     out1, out2 = ('o1', 'o2') if kind == 'path' else ('o1.zip', 'o2.zip')
-    if history == 'same_target':
+    if history in ('same_target', 'same_step_object'):
         # the target already holds a dump of other data (fewer / other rows, same resource names)
         other = [lab.source(r['name'], r['fields'], [dict(x, id=x['id'] + 1000) for x in r['rows'][:len(r['rows']) // 2]] or
                             [dict(r['rows'][0], id=-5)] if r['rows'] else [])
